@@ -281,8 +281,13 @@ func Check(o Options) int {
 			fmt.Fprintf(os.Stderr, "%s: paths=%d decisions=%d queries=%d solver=%.1fs wall=%.1fs viol=%d known=%d inconclusive=%d ends=%v\n",
 				h.Name, r.Stats.Paths, r.Stats.Decisions, r.Queries, r.SolverTime.Seconds(), r.Wall.Seconds(),
 				len(r.Violations), len(r.Known), len(r.Inconclusive), r.Stats.PathsByEnd)
+			seenMsg := map[string]bool{}
 			for _, ic := range r.Inconclusive {
-				fmt.Fprintf(os.Stderr, "   INCONCLUSIVE %s: %s\n", ic.Kind, firstLines(ic.Msg, 12))
+				m := ic.Kind + ": " + firstLines(ic.Msg, 12)
+				if !seenMsg[m] {
+					seenMsg[m] = true
+					fmt.Fprintf(os.Stderr, "   INCONCLUSIVE %s\n", m)
+				}
 			}
 		}
 	}
